@@ -326,6 +326,30 @@ func c20(p *model.Prog, r *report.Result) {
 
 	// ---------------------------------------------------------------- R3
 	r.Rule("C20.R3", "no blocking under lock: while logic.Group.mutex or logic.ServerManager.mutex may be held no channel send/receive outside a select with default, blocking select, time.Sleep, sync.WaitGroup.Wait, net.Dial*, or connection Flush is executed in lal or naza code (naza connection write path and nazalog are exempt: see assumptions)")
+	nBlk := blockingUnderLock(p, may, r, "C20.R3")
+	r.Count("blocking_sites_under_lock", nBlk)
+
+	// ---------------------------------------------------------------- R4
+	r.Rule("C20.R4", "lal never closes a channel (so no send on a closed channel is possible); naza closes only channels it alone sends on")
+	nClose := 0
+	for _, fn := range p.LalFuncs() {
+		model.EachInstr(fn, func(in ssa.Instruction) {
+			if c, ok := in.(*ssa.Call); ok {
+				if b, isB := c.Call.Value.(*ssa.Builtin); isB && b.Name() == "close" {
+					nClose++
+					r.Bad("C20.R4", fkey(fn, "close", "chan"), p.InstrPos(in), "channel closed in lal code: every sender on it must be shown to have stopped first")
+				}
+			}
+		})
+	}
+	if nClose == 0 {
+		r.Ok("C20.R4", "lal|close|none", "", fmt.Sprintf("0 close() calls in %d lal functions", len(p.LalFuncs())))
+	}
+}
+
+// blockingUnderLock reports every blocking primitive executed while Group.mutex or
+// ServerManager.mutex may be held; returns the number of such sites.
+func blockingUnderLock(p *model.Prog, may *lockAnalysis, r *report.Result, rule string) int {
 	gm := p.Field("pkg/logic", "Group", "mutex")
 	smm := p.Field("pkg/logic", "ServerManager", "mutex")
 	nBlk := 0
@@ -379,25 +403,8 @@ func c20(p *model.Prog, r *report.Result) {
 				return
 			}
 			nBlk++
-			r.Bad("C20.R3", fkey(fn, "blocking", what), p.InstrPos(in), what+" while "+st.String()+" may be held: every session and API call of the stream (or the whole server) waits behind it")
+			r.Bad(rule, fkey(fn, "blocking", what), p.InstrPos(in), what+" while "+st.String()+" may be held: every session and API call of the stream (or the whole server) waits behind it")
 		})
 	}
-	r.Count("blocking_sites_under_lock", nBlk)
-
-	// ---------------------------------------------------------------- R4
-	r.Rule("C20.R4", "lal never closes a channel (so no send on a closed channel is possible); naza closes only channels it alone sends on")
-	nClose := 0
-	for _, fn := range p.LalFuncs() {
-		model.EachInstr(fn, func(in ssa.Instruction) {
-			if c, ok := in.(*ssa.Call); ok {
-				if b, isB := c.Call.Value.(*ssa.Builtin); isB && b.Name() == "close" {
-					nClose++
-					r.Bad("C20.R4", fkey(fn, "close", "chan"), p.InstrPos(in), "channel closed in lal code: every sender on it must be shown to have stopped first")
-				}
-			}
-		})
-	}
-	if nClose == 0 {
-		r.Ok("C20.R4", "lal|close|none", "", fmt.Sprintf("0 close() calls in %d lal functions", len(p.LalFuncs())))
-	}
+	return nBlk
 }
